@@ -397,6 +397,26 @@ macro_rules! field_checks {
                     ("select(false)", pt(&sf), py),
                     ("zip_map_lanes", pt(&z), py),
                 ];
+                // the same with a constant whose derivative parts are absent (whatever the presence
+                // pattern of the receiver): no stale part of the receiver may survive
+                let k: D = <D as From<F>>::from(y.re());
+                let pk = pt(&k);
+                let mut r3 = x.clone();
+                SimdValue::replace(&mut r3, 0, k.clone());
+                let mut r4 = x.clone();
+                unsafe { SimdValue::replace_unchecked(&mut r4, 0, k.clone()) };
+                let s4 = SimdValue::select(x.clone(), false, k.clone());
+                let s5 = SimdValue::select(k.clone(), true, x.clone());
+                let z4 = SimdValue::zip_map_lanes(x.clone(), k.clone(), |_, b| b);
+                let mut r5 = k.clone();
+                SimdValue::replace(&mut r5, 0, x.clone());
+                let mut checks = checks;
+                checks.push(("replace by a constant", pt(&r3), &pk));
+                checks.push(("replace_unchecked by a constant", pt(&r4), &pk));
+                checks.push(("select(false) of a constant", pt(&s4), &pk));
+                checks.push(("select(true) on a constant", pt(&s5), &pk));
+                checks.push(("zip_map_lanes with a constant", pt(&z4), &pk));
+                checks.push(("replace of a constant", pt(&r5), px));
                 for (name, g, want) in checks {
                     $st.evaluations += 1;
                     if let Some(i) = bits_same(l, &g, want) {
@@ -450,7 +470,7 @@ fn main() {
         mode: cli.mode,
         seed: cli.seed,
         start,
-        rule: "for Dual, DualVec (static 2, dynamic 3), Dual2, Dual2Vec (static 2, dynamic 2) over f32 and f64: 19 constants, 50 unary and 12 binary RealField/ComplexField methods (provided methods to_polar, to_exp, signum, sinc, sinhc, cosc, coshc, sinh_cosh included; log with a dual base, powf/powc with a dual exponent), the SimdValue items (LANES, splat, extract, extract_unchecked, replace, replace_unchecked, select, map_lanes, zip_map_lanes) x operand grid of 6 x 3 real parts, both signs x every presence pattern x generic non-unit parts. Oracle: (i) constant = float constant bits, zero parts; (ii) method = generic DualNum/operator expression, all parts bit-equal; (iii) real part = same method on plain floats (bit-equal for single-call methods, within 8..64 u for reformulated/composite ones); selection methods return the selected operand with its own parts.".into(),
+        rule: "for Dual, DualVec (static 2, dynamic 3), Dual2, Dual2Vec (static 2, dynamic 2) over f32 and f64: 19 constants, 50 unary and 12 binary RealField/ComplexField methods (provided methods to_polar, to_exp, signum, sinc, sinhc, cosc, coshc, sinh_cosh included; log with a dual base, powf/powc with a dual exponent), the SimdValue items (LANES, splat, extract, extract_unchecked, replace, replace_unchecked, select, map_lanes, zip_map_lanes; each also with a constant operand whose parts are absent) x operand grid of 6 x 3 real parts, both signs x every presence pattern x generic non-unit parts. Oracle: (i) constant = float constant bits, zero parts; (ii) method = generic DualNum/operator expression, all parts bit-equal; (iii) real part = same method on plain floats (bit-equal for single-call methods, within 8..64 u for reformulated/composite ones); selection methods return the selected operand with its own parts.".into(),
         assumptions: vec!["panicking-by-design methods (floor, ceil, round, trunc, fract) are outside the alphabet".into()],
         extra: json!({}),
         exhaustive: true,
